@@ -16,10 +16,12 @@ try:
     NOT_CLAIMED = json.load(open(os.path.join(V, "not_claimed.json")))
 except FileNotFoundError:
     pass
+tracked = set(subprocess.run(["git", "-C", V, "ls-files", "checks"], capture_output=True, text=True).stdout.split())
+HOLD = set(os.environ.get("MANIFEST_HOLD", "").split())   # properties whose check exists but is not green yet
 for p in props:
     f = os.path.join(V, "checks", p.lower() + ".py")
     entry = None
-    if os.path.exists(f):
+    if os.path.exists(f) and ("checks/" + p.lower() + ".py") in tracked and p not in HOLD:
         mod = importlib.import_module("checks." + p.lower())
         entry = getattr(mod, "MANIFEST_ENTRY", None)
     if entry:
